@@ -74,8 +74,15 @@ Definition run (inp : pc_case) : V :=
       let perr := VL (map (fun te => VB (snd te)) ts) in
       match remote with
       | None =>
-          VL (perr :: Vsections (sections_of e0 x0 (map (fun te => (fst te, None)) ts))
-                                (map (fun _ => false) ts))
+          (* CreateOffer: a rejected section has no mid, hasLocalDescriptionChanged
+             then never settles and CreateOffer gives up (PeerConnection behaviour,
+             outside the section model) *)
+          let r := sections_of e0 x0 (map (fun te => (fst te, None)) ts) in
+          match r with
+          | Ok l => if existsb l_rejected l then VL [perr; VS "create:excessive-retries"]
+                    else VL (perr :: Vsections r (map (fun _ => false) ts))
+          | _ => VL (perr :: Vsections r (map (fun _ => false) ts))
+          end
       | Some secs =>
           let rs := map (fun s => match s with (k, cs, xs, _) =>
                                     mkRsec (kind_of_Z k) (map codec_of cs) xs end) secs in
